@@ -27,6 +27,9 @@ pub struct LocksInput {
     pub query_files: Vec<String>,
     pub with_scan: bool,
     pub two_query_threads: bool,
+    /// the editing thread additionally analyses this many filler files (> 2000 cached files => eviction)
+    #[serde(default)]
+    pub fillers: usize,
     pub run_seed: u64,
     #[serde(default)]
     pub sandbox: Option<String>,
@@ -153,7 +156,11 @@ impl Scenario for Locks {
         if sim.strategy == "random" && sim.param == 0 {
             sim.param = 20;
         }
-        serde_json::to_value(LocksInput { spec, sim, edits, query_files, with_scan: rng.chance(800), two_query_threads: rng.chance(400), run_seed, sandbox: None }).unwrap()
+        let fillers = if rng.chance(40) { 2001 } else { 0 };
+        if fillers > 0 {
+            sim.max_steps = 2_000_000_000;
+        }
+        serde_json::to_value(LocksInput { spec, sim, edits, query_files, with_scan: rng.chance(800), two_query_threads: rng.chance(400), fillers, run_seed, sandbox: None }).unwrap()
     }
 
     fn exec(&self, input: &Value) -> RunOut {
@@ -177,6 +184,9 @@ impl Scenario for Locks {
         out.state_hash = oc.log_hash;
         out.nontrivial = oc.threads >= 3 && oc.switches > 2;
         out.count(&format!("fault.shards_{}", inp.sim.shards), 1);
+        if inp.fillers > 0 {
+            out.count("fault.cache_pressure_2001_fillers", 1);
+        }
         out.count("probe.lock_blocked", (oc.blocked_events > 0) as u64);
         // potential (not alarmed) lock-order cycles: pairs held->requested seen in both directions
         let mut pot = 0u64;
@@ -277,7 +287,12 @@ fn drive(root: &Path, inp: &LocksInput, slow: Arc<Mutex<Vec<String>>>) {
         let r = root.to_path_buf();
         let edits = inp.edits.clone();
         let s = slow.clone();
+        let fillers = inp.fillers;
         hs.push(simrt::spawn(move || {
+            for i in 0..fillers {
+                // cache pressure: eviction runs inside analyze_file once more than 2000 files are cached
+                d.analyze_file(r.join(format!("zz_fill/filler_{}.py", i)), "x = 1\n");
+            }
             for (f, t) in &edits {
                 timed(&s, &format!("analyze_file({})", f), || d.analyze_file(r.join(f), t));
                 timed(&s, &format!("cleanup_file_cache({})", f), || d.cleanup_file_cache(&r.join(f)));
